@@ -75,8 +75,8 @@ def from_str_num(p):
         tol = B(2) << z3.If(rb + d > B(prec), rb + d - B(prec), B(0))
         diff = z3.If(z3.UGE(up, q), up - q, q - up)
         goals.append(z3.Implies(z3.And(rng, d >= 0), z3.ULE(diff, tol + B(1))))
-        if rnd == 'n':
-            # round-to-nearest through two prec+10-bit approximations: the total error stays below (1/2 + 1/32) ulp, which is what
+        if rnd == 'n' and p.get('roundtrip'):
+            # (C08 only) round-to-nearest through two prec+10-bit approximations: the total error stays below (1/2 + 1/32) ulp, which is what
             # makes repr() round-trip (C08); a neighbour of the correctly rounded value would be off by >= 1/2 + ... ulp more
             ulp = B(1) << z3.If(rb + d > B(prec), rb + d - B(prec), B(0))
             goals.append(z3.Implies(z3.And(rng, d >= 0, rb + d > B(prec + 6)), z3.ULE(diff << 6, (ulp << 5) + (ulp << 1) + B(64))))
@@ -129,7 +129,7 @@ def from_str_num_concrete(p, m):
     ulp = Fraction(2) ** (r[2] + r[3] - prec)
     if abs(got - exact) > 2 * ulp + Fraction(1):
         return False, 'from_str(%r, %d, %r) = %s is more than 2 ulp from the exact value%s' % (lit, prec, rnd, got, note)
-    if rnd == 'n' and abs(got - exact) > ulp * Fraction(34, 64) + Fraction(1):
+    if rnd == 'n' and p.get('roundtrip') and abs(got - exact) > ulp * Fraction(34, 64) + Fraction(1):
         return False, 'from_str(%r, %d, %r) = %s is %s ulp from the exact value (more than 1/2 + 1/32)%s' % (lit, prec, rnd, got, float(abs(got - exact) / ulp), note)
     return True, ''
 
